@@ -112,6 +112,16 @@ Definition match_domains (e : net_engine) (q : request) : list net_rule :=
 Definition match_all (e : net_engine) (q : request) : list net_rule :=
   map snd (match_shortcuts e q) ++ match_domains e q ++ filter (fun f => rmatch f q) (ne_seq e).
 
+(* engine.go Engine.MatchRequest: the rules matching the request and, when there is a referrer, the rules matching
+   the referrer as a document request *)
+Definition engine_match_request (e : net_engine) (q : request) : matching_result :=
+  new_matching_result (match_all e q)
+    (if isnil (rq_source_url q) then [] else match_all e (new_request psl (rq_source_url q) [] TypeDocument)).
+(* networkengine.go NetworkEngine.Match *)
+Definition network_engine_match (e : net_engine) (q : request) : option net_rule :=
+  let rs := match_all e q in
+  if isnil rs then None else get_basic_result (new_matching_result rs []).
+
 (* ---- DNS engine ---- *)
 (* IsHostLevelNetworkRule, the bit formula as written *)
 Definition is_host_level (f : net_rule) : bool :=
